@@ -15,6 +15,15 @@ XPATTERNS = [(0, 1, 2, 3, 4), (0, 1, 3, 4, 8), (0, 2, 3, 7, 8), (0, 3, 4, 5, 9)]
 XPATTERNS6 = [(0, 1, 2, 3, 4, 5), (0, 1, 3, 4, 8, 9), (0, 2, 3, 7, 8, 10), (0, 3, 4, 5, 9, 11)]
 
 
+def _tol(Y):
+    """comparison tolerance for recreated values: 1e-9 of the spread of the averages (the scale of
+    every transition) plus the rounding the level of the data imposes (a few hundred ulp)"""
+    import math
+    spread = max(Y) - min(Y)
+    level = max(abs(v) for v in Y)
+    return 1e-9 * max(spread, 1e-300 if level == 0 else 0.0) + 256 * math.ulp(level if level else 1e-300) + (1e-9 if spread == 0 and level == 0 else 0.0)
+
+
 def _hull_ok(v, a, b, eps):
     lo, hi = (a, b) if a <= b else (b, a)
     return lo - eps <= v <= hi + eps
@@ -34,9 +43,8 @@ def c05_invariants(case, ys):
     key = {"strategy": st, "exp": p.get("exp"), "smooth": p.get("smooth")}
     fails = []
     z = [float(v) for v in ys]
-    sc = max(1.0, max(abs(float(v)) for v in y))
-    eps = 1e-9 * sc
     Y = [float(v) for v in y]
+    eps = _tol(Y)
     for k in range(m - 1):
         seg = z[k * n:(k + 1) * n]
         nxt = z[(k + 1) * n]
@@ -81,7 +89,7 @@ def c06_reference(case, ys):
         e = int(e) if e == int(e) else F(e)
     smooth = p.get("smooth", 1)
     z = [float(v) for v in ys]
-    sc = max(1.0, max(abs(float(v)) for v in y))
+    tolv = _tol([float(v) for v in y])
     Yx = [F(v) for v in y]
 
     def cmp(ref, wins):
@@ -89,7 +97,7 @@ def c06_reference(case, ys):
         ar_last = wins[m - 2][1]
         lim = (m - 2) * n + (n - ar_last) + 1 if m >= 2 else 0
         for i in range(lim):
-            if abs(float(ref[i]) - z[i]) > 1e-9 * sc:
+            if abs(float(ref[i]) - z[i]) > tolv:
                 return i
         return None
 
@@ -123,8 +131,18 @@ def check_window(case):
     st = case["strategy"]
     p = case["p"]
     key = {"strategy": st}
+    if case.get("y_off"):
+        # the same averages on a large exactly representable level (2^40): jumps are tiny relative to it
+        case = dict(case, y=[float(v) + case["y_off"] for v in case["y"]], y_off=0)
     try:
-        xs, ys = RC.run(st, case["x"], case["y"], case["n"], p)
+        obj = RC.cls(st)(np.array(case["x"], dtype=float), np.array(case["y"], dtype=float), case["n"], **RC.kwargs_for(st, p))
+        xs, ys = obj.rfa()
+        if case.get("twice"):
+            first = np.array(ys, copy=True)
+            xs2, ys2 = obj.rfa()
+            if not (np.array_equal(np.asarray(ys2), first) and np.array_equal(np.asarray(ys), first)):
+                f = fail("second-rfa-call-differs", None, key)
+                return [dict(f, clause="C05:second-rfa-call-differs"), dict(f, clause="C06:second-rfa-call-differs")], None
     except Exception as e:  # noqa
         f = fail("raised", {"exception": repr(e)}, dict(key, exc=type(e).__name__))
         return [dict(f, clause="C05:raised"), dict(f, clause="C06:raised")], None
